@@ -46,7 +46,8 @@ KINDS = [
     ("Enum", "ENUMERATED { a, b, c }", None, "b", ""),
     ("EnumExt", "ENUMERATED { a(5), b(-1), ..., c(7) }", None, "a", ""),
     ("Real", "REAL", "(0..10)", None, "numeric"),
-    ("RealF32", "REAL (WITH COMPONENTS { mantissa (-16777215..16777215), base (2), exponent (-125..128) })", None, None, "numeric"),
+    ("RealF32", "REAL (WITH COMPONENTS { mantissa (-16777215..16777215), base (2), exponent (-126..104) })", None, None, "numeric"),
+    ("RealToF32", "REAL", "(WITH COMPONENTS { mantissa (-16777215..16777215), base (2), exponent (-126..104) })", None, "numeric"),
     ("Bits", "BIT STRING", "(SIZE(8))", "'0101'B", ""),
     ("BitsNamed", "BIT STRING { x(0), y(3) }", "(SIZE(4..8))", None, ""),
     ("Octs", "OCTET STRING", "(SIZE(1..4))", "'AB'H", ""),
@@ -162,7 +163,8 @@ def kind_module(idx, kind, tier):
     use.append("  UseOfSized ::= SEQUENCE (SIZE(1..4)) OF %s" % names["uu"])
     if dflt:
         use.append("  UseDflt ::= SEQUENCE { d0 [0] %s DEFAULT %s, d1 [1] %s DEFAULT %s, z BOOLEAN }" % (names["u"], dflt, names["tu"], dflt))
-    if "param" not in flags:
+    # (a float-sized REAL is emitted as an inner type of its own in every instance: the member name clashes without -fcompound-names)
+    if "param" not in flags and kname != "RealF32":
         use.append("  Box {T} ::= SEQUENCE { v T, w INTEGER OPTIONAL }")
         use.append("  UseBox ::= SEQUENCE { b0 Box {%s}, b1 Box {%s}%s }" % (names["u"], names[pats[-1]], (", b2 Box {%s}" % cons[0]) if cons else ""))
     # a second-level alias used ONLY as a member (never a PDU of its own besides -pdu=all)
